@@ -178,6 +178,18 @@ def _job(args):
     return run_proof(*args)
 
 
+def property_tasks(prop, opts=None, sources=None, only=None):
+    tasks = []
+    for modname in contract_modules():
+        if prop not in props_of_module(modname):
+            continue
+        for p, name in list_proofs(modname, sources):
+            ps = p if isinstance(p, (list, tuple)) else [p]
+            if prop in ps and (only is None or name in only):
+                tasks.append((modname, name, opts, sources))
+    return tasks
+
+
 def run_property(prop, opts=None, jobs=None, sources=None, only=None):
     """Run every proof that serves `prop`.  Returns list of results."""
     tasks = []
